@@ -88,7 +88,7 @@ fn c20_headers_custom_one() { headers_case(999, 1); }
 #[kani::unwind(66)]
 fn c20_headers_404_none() { headers_case(404, 0); }
 
-// @harness name=c20_status_line_all_codes props=C20 tier=thorough timeout=3000 rmbody=ioerr
+// @harness name=c20_status_line_all_codes props=C20 tier=quick timeout=900 rmbody=ioerr
 // @bound every status code 100..=999 (symbolic), no headers, destination capacity 64: status digits and reason as http reports them
 // @functions cgi::response::write_headers, http::StatusCode::{as_str, canonical_reason}
 #[kani::proof]
